@@ -107,3 +107,12 @@ package unixfsnode
 //@ prop C02 C15
 //@ ensures starts-at-the-first-of-its-own-links: result != nil && typeis(result._substrate, "*unixfsnode._PathedPBNode__ListItr") && result._substrate.(*unixfsnode._PathedPBNode__ListItr)._substrate.idx == 0 && result._substrate.(*unixfsnode._PathedPBNode__ListItr)._substrate.n == addrof(n._substrate.Links)
 //@ ensures names-are-yielded-as-they-are: result.transformName == nil
+
+// C06 / C12: the bytes-consuming matcher reads a matched large-bytes node through its own reader to
+// the end, and whatever goes wrong doing so -- the reader cannot be made, a block cannot be loaded --
+// is returned to the traversal.
+//@ func unixfsnode.BytesConsumingMatcher
+//@ prop C06 C12
+//@ at call io.Copy#1 assert consumes-the-matched-nodes-own-reader: callee_src == rdr
+//@ at return assert a-matched-large-bytes-node-is-read-to-the-end: err == nil && ok ==> rdr != nil && drained(rdr)
+//@ ensures load-failure-is-returned: err == nil ==> loadFailed == old(loadFailed)
